@@ -37,7 +37,7 @@ class TokPE(pe.PE):
         self.max_depth = max_depth
         self.length = length
         self.byte_domain = byte_domain
-        self.loop_widen = 6
+        self.loop_widen = 64
         self.memo_joins = True
         self.overrides = {}      # tokener field name -> initial expression (for rules that make a data field a root)
 
@@ -120,6 +120,13 @@ class TokPE(pe.PE):
                 if "c" not in state.roots:
                     state.roots["c"] = frozenset(self.byte_domain)
                 return pe.R("c")
+            el, fl = pe.fields_of(path)
+            if not fl and isinstance(el, int) and 0 < el < self.length:
+                nm = "c%d" % el
+                state.trace.append(("read", el))
+                if nm not in state.roots:
+                    state.roots[nm] = frozenset(self.byte_domain)
+                return pe.R(nm)
             state.trace.append(("lookahead", path))
             return pe.TOP
         return pe.TOP
@@ -182,7 +189,7 @@ def initial_config():
 
 
 class Outcome:
-    __slots__ = ("bytes", "err", "ret_nonnull", "consumed", "next", "appends", "calls", "lookahead", "stores", "gloads", "pbstores", "reads", "field_reads", "field_writes", "tail")
+    __slots__ = ("bytes", "err", "ret_nonnull", "consumed", "next", "appends", "calls", "lookahead", "stores", "gloads", "pbstores", "reads", "field_reads", "field_writes", "tail", "bytes1")
 
     def to_json(self):
         return {"bytes": _ranges(self.bytes), "err": self.err, "ret": self.ret_nonnull, "consumed": self.consumed,
@@ -240,6 +247,7 @@ class Table:
             o = Outcome()
             s = lf.state
             o.bytes = frozenset(s.roots.get("c", frozenset(byte_domain if byte_domain is not None else range(-128, 128))))
+            o.bytes1 = frozenset(s.roots["c1"]) if "c1" in s.roots else None
             o.err = self._const(s, self.tokloc(self.F["err"]), 0)
             o.ret_nonnull = None if lf.value is None else (lf.value[0] == "ptr") if lf.value[0] in ("ptr", "c") else None
             o.consumed = self._const(s, self.tokloc(self.F["char_offset"]), 0)
@@ -282,7 +290,7 @@ class Table:
             return outs
         merged = {}
         for o in outs:
-            key = (o.bytes, o.err, o.ret_nonnull, o.consumed, o.next, json.dumps(o.appends, sort_keys=True), tuple(sorted(set(o.calls))), o.lookahead, tuple(o.gloads), o.pbstores, o.reads > 0, tuple(o.field_reads), tuple(o.field_writes), o.tail)
+            key = (o.bytes, o.bytes1, o.err, o.ret_nonnull, o.consumed, o.next, json.dumps(o.appends, sort_keys=True), tuple(sorted(set(o.calls))), o.lookahead, tuple(o.gloads), o.pbstores, o.reads > 0, tuple(o.field_reads), tuple(o.field_writes), o.tail)
             merged.setdefault(key, o)
         return list(merged.values())
 
